@@ -5,6 +5,7 @@ import Petl.Proto
 import Petl.Sort
 import Petl.Join
 import Petl.HashJoin
+import Petl.SetOps
 namespace Petl
 
 def opCmp : P String := do
@@ -157,6 +158,22 @@ def opLookup : P String := do
           let d := buildLookup (rawKey kidx) getv usable
           pure (showTable (d.map (fun e => [e.1, Val.seq true e.2])))
 
+/-- setop <complement|intersection|hashcomplement|hashintersection> <strict> <bs|-> <A> <B> -/
+def opSetOp : P String := do
+  let t ← tok
+  let op? : Option SetOp := match t with
+    | "complement" => some .complement | "intersection" => some .intersection
+    | "hashcomplement" => some .hashcomplement | "hashintersection" => some .hashintersection
+    | _ => none
+  match op? with
+  | none => P.fail s!"bad set op {t}"
+  | some op =>
+    let strict ← pBool
+    let bs ← pOptNat
+    let a ← pTable
+    let b ← pTable
+    pure (showOut (setOpView op strict bs a b))
+
 def dispatch (op : String) : Option (P String) :=
   match op with
   | "cmp" => some opCmp
@@ -167,6 +184,7 @@ def dispatch (op : String) : Option (P String) :=
   | "crossjoin" => some opCrossJoin
   | "hashjoin" => some opHashJoin
   | "lookup" => some opLookup
+  | "setop" => some opSetOp
   | _ => none
 
 end Petl
